@@ -84,6 +84,7 @@ class Gen:
             if kind == "wrapper":
                 st["w"] = r.randrange(len(WRAPPERS))
                 st["braced"] = r.random() < 0.7
+                st["turbofish"] = r.random() < 0.3
                 if not st["braced"]:
                     st["body"] = [self.expr_stmt()]
             if kind == "nestedfn":
@@ -226,6 +227,8 @@ class Render:
         if k == "wrapper":
             style, text, name = WRAPPERS[st["w"]]
             frame = {"k": "call", "style": style, "name": name}
+            if st.get("turbofish"):
+                text = text + "::<_, ()>"          # explicit type arguments: the same call
             site = None
             if style == "scoped":
                 site = {"k": "path", "parts": text.split("::")}
